@@ -45,7 +45,7 @@ OUTCOMES = ['ok', 'listed', 'unlisted', 'exc-listed', 'exc-unlisted', 'undecodab
 FLOORS = {'*': {**{f'last:{o}': 5 for o in OUTCOMES}, 'real-cancellation': 5, 'multi-attempt-3-tracers': 20,
                 'client:sync': 200, 'client:async': 200, 'tracers:0': 20, 'tracers:1': 50, 'tracers:2': 50, 'tracers:3': 50,
                 'ctx:supplied': 100, 'ctx:default': 100, 'kind:single': 100, 'kind:batch': 50, 'kind:notification': 30,
-                'attempts>=2': 100, 'concurrent-requests': 100}}
+                'attempts>=2': 100, 'concurrent-requests': 100, 'called-while-handling-another-exception': 100}}
 
 
 class Abort(BaseException):
@@ -136,7 +136,11 @@ class Script:
         return json.dumps({'jsonrpc': '2.0', 'id': None if many else req['id'], 'error': err})
 
 
-def run_case(ctx, n_tracers, attempts, script, kind, supplied_ctx, is_async):
+class Unrelated(Exception):
+    """an exception the CALLER is handling while it uses the client"""
+
+
+def run_case(ctx, n_tracers, attempts, script, kind, supplied_ctx, is_async, inside_except=False):
     ck = 'async' if is_async else 'sync'
     log = []
     tracers = [Rec(i, log) for i in range(n_tracers)]
@@ -184,6 +188,12 @@ def run_case(ctx, n_tracers, attempts, script, kind, supplied_ctx, is_async):
             ctx.hit('real-cancellation')
             return await task
         st, out = clientside.outcome_of(lambda: driver(), True)
+    elif inside_except:
+        ctx.hit('called-while-handling-another-exception')
+        try:
+            raise Unrelated('the caller is busy handling this')
+        except Unrelated:
+            st, out = clientside.outcome_of(op, is_async)
     else:
         st, out = clientside.outcome_of(op, is_async)
 
@@ -218,8 +228,8 @@ def run_case(ctx, n_tracers, attempts, script, kind, supplied_ctx, is_async):
         ctx.hit('attempts>=2')
         if n_tracers == 3:
             ctx.hit('multi-attempt-3-tracers')
-    cls = (n_tracers, attempts, consumed, kind, supplied_ctx, ck)
-    fam = f'{kind}:{ck}:t{n_tracers}'
+    cls = (n_tracers, attempts, consumed, kind, supplied_ctx, ck, inside_except)
+    fam = f'{kind}:{ck}:t{n_tracers}' + (':inside-except' if inside_except else '')
     wit = dict(tracers=n_tracers, retry_attempts=attempts, script=script, kind=kind, caller_supplied_context=supplied_ctx,
                client=ck, outcome=[st, out],
                events=[(e[0], e[1]) if e[0] == 'transport' else (e[0], e[1], type(e[4]).__name__) for e in log])
@@ -450,7 +460,8 @@ def gen(ctx):
                     k += 1
                     yield 'case', dict(n_tracers=(1, 2, 3, 0, 3, 1, 2)[k % 7], attempts=attempts, script=list(script),
                                        kind=('single', 'batch', 'single', 'notification', 'batch')[k % 5],
-                                       supplied_ctx=bool((k // 2) % 2), is_async=is_async)
+                                       supplied_ctx=bool((k // 2) % 2), is_async=is_async,
+                                       inside_except=(k % 4 == 0 and 'cancel-task' not in script))
 
 
 KINDS = {'case': run_case, 'concurrent': run_concurrent}
